@@ -825,6 +825,15 @@ def to_trials_stage(c):
                       'best_candidates_to_trials returned trials that are not the rows of the optimiser result (features of one row with the reward or features of another): extra %s, missing %s' % (
                           list((got - want).elements())[:3], list((want - got).elements())[:3]), case)
           continue
+        if kind != 'nan':
+          # exact order against the Lean `toTrials` (stable descending sort of the rows)
+          rk = fkey(rew)
+          m = c.lean('C19', [{'op': 'totrials', 'rows': [{'ids': [i * par + j for j in range(par)], 'r': int(rk[i])} for i in range(n)]}])[0]
+          model_seq = [tkey(row_params(t['id'] // par, t['id'] % par), rew[t['id'] // par]) for t in m['trials']]
+          real_seq = [tkey({k: (float(v) if not isinstance(v, str) else v) for k, v in t.parameters.as_dict().items()},
+                           t.final_measurement.metrics['acquisition'].value) for t in trials]
+          if model_seq != real_seq:
+            c.tie_break('best_candidates_to_trials order (c19_to_trials / toTrials)', case, real_seq, model_seq)
         fin = [a for a in accs if not np.isnan(a)]
         if any(fin[i] < fin[i + 1] for i in range(len(fin) - 1)):
           c.prop_fail('to-trials-order', 'best_candidates_to_trials does not return the best candidate first: acquisition values %s' % accs, case)
